@@ -237,6 +237,16 @@ func (*InvalidUnboundedAccount) Severity() Severity {
 	return ErrorSeverity
 }
 
+type ZeroDenominator struct{}
+
+func (e *ZeroDenominator) Message() string {
+	return "The denominator of a portion cannot be zero"
+}
+
+func (*ZeroDenominator) Severity() Severity {
+	return ErrorSeverity
+}
+
 type EmptiedAccount struct {
 	Name string
 }
